@@ -1,6 +1,10 @@
 package pogreb
 
-import "github.com/akrylysov/pogreb/fs"
+import (
+	"time"
+
+	"github.com/akrylysov/pogreb/fs"
+)
 
 // vPublicOp runs one public method (kind) on key k; returns (err != nil).
 // kinds: 0 Put 1 Delete 2 Get 3 GetAppend 4 Has 5 Count 6 Items/Next x2 7 Sync
@@ -154,4 +158,54 @@ func H_C10_closed() {
 	}
 	checkReads(db2, r, "C10c.contents-unchanged")
 	vCover("C10c.done")
+}
+
+// H_C10_worker: the background sync/compaction worker (context, tickers and
+// select are modelled: a ticker may fire at any scheduling point, at most
+// tickBudget times) runs alongside the caller's operations and Close:
+// no panic, no deadlock, lock discipline, results as without the worker, and
+// after Close returns no goroutine started by the database is left.
+func H_C10_worker() {
+	n := 2
+	vlen := 2
+	rec := 10 + 8 + vlen
+	mk := func(bg bool) *Options {
+		o := smallOpts(fs.Mem, 2, rec)
+		if bg {
+			mode := vCase() % 3
+			if mode != 1 {
+				o.BackgroundSyncInterval = time.Second
+			}
+			if mode != 0 {
+				o.BackgroundCompactionInterval = time.Second
+			}
+		}
+		return o
+	}
+	vFlag("tickBudget", 1)
+	vFlag("lockset", 1)
+	dir := "c10w"
+	db, err := Open(dir, mk(true))
+	vAssert(err == nil, "C10w.open")
+	if err != nil {
+		return
+	}
+	vAssert(vLiveThreads() == 2 || !vSymbolic(), "C10w.worker-started")
+	r := newRef(n, 8)
+	applyOp(db, r, 0, 0, vlen, "C10w.op")
+	applyOp(db, r, 0, 0, vlen, "C10w.op")
+	code := vChoice("op", 2*n)
+	op, k := decodeOp(code, n)
+	applyOp(db, r, op, k, vlen, "C10w.op")
+	vAssert(db.Close() == nil, "C10w.close")
+	vFlag("lockset", 0)
+	vAssert(vLiveThreads() == 1, "C10w.no-goroutine-left-after-close")
+	db2, err := Open(dir, mk(false))
+	vAssert(err == nil, "C10w.reopen")
+	if err != nil {
+		return
+	}
+	checkReads(db2, r, "C10w.after")
+	checkItems(db2, r, "C10w.after")
+	vCover("C10w.done")
 }
